@@ -18,4 +18,5 @@ func main() {
 	w.C01Readers(r)
 	w.C01Transplant()
 	w.C01Policy()
+	w.C01NameTypes()
 }
